@@ -43,14 +43,14 @@ func (c01) Name() string { return "storesim" }
 // genState is the generator's shadow of one committed state: its key list
 // (exact as long as no op is deleted by the minimiser).
 type genState struct {
-	keys   map[string]bool
+	keys   map[string]string // key -> hex of the current value
 	height int64
 }
 
 func (g *genState) clone() *genState {
-	c := &genState{keys: make(map[string]bool, len(g.keys)), height: g.height}
-	for k := range g.keys {
-		c.keys[k] = true
+	c := &genState{keys: make(map[string]string, len(g.keys)), height: g.height}
+	for k, v := range g.keys {
+		c.keys[k] = v
 	}
 	return c
 }
@@ -75,11 +75,14 @@ type historyGen struct {
 	maxRoots int
 	big      bool
 	seq      int // running counter for ordered-run keys
+	// noMemSet: never generate a MemSet (strict runs under a mem-tree configuration:
+	// the recorded known defect "memTree fed from uncommitted trees" needs one)
+	noMemSet bool
 }
 
 func newHistoryGen(r *simrt.RNG, poolSize int, allowEmpty bool) *historyGen {
 	g := &historyGen{r: r, pool: NewKeyPool(r, poolSize, allowEmpty), maxRoots: 40}
-	g.states = []*genState{{keys: map[string]bool{}}, {keys: map[string]bool{}}}
+	g.states = []*genState{{keys: map[string]string{}}, {keys: map[string]string{}}}
 	return g
 }
 
@@ -117,7 +120,19 @@ func (g *historyGen) batch(parent *genState) []simrt.Op {
 	}
 	var subs []simrt.Op
 	existing := parent.sortedKeys()
-	switch r.Weighted(8, 2, 2, 2, 1) {
+	switch r.Weighted(8, 2, 2, 2, 1, 1) {
+	case 5: // idempotent rewrite: existing keys get the value they already have
+		if len(existing) == 0 {
+			k := g.pool.Pick(r)
+			subs = append(subs, KVOp(k, GenValue(r, &g.uniq, k)))
+		}
+		if n > 6 {
+			n = r.Range(1, 6)
+		}
+		for i := 0; i < n && len(existing) > 0; i++ {
+			k := existing[r.Intn(len(existing))]
+			subs = append(subs, simrt.Op{K: "kv", S: []string{simrt.H(k), parent.keys[string(k)]}})
+		}
 	case 0: // random pool keys (overwrites frequent with a small pool)
 		for i := 0; i < n; i++ {
 			k := g.pool.Pick(r)
@@ -167,7 +182,7 @@ func applyShadow(parent *genState, subs []simrt.Op) *genState {
 	for i := range subs {
 		switch subs[i].K {
 		case "kv":
-			c.keys[string(subs[i].B(0))] = true
+			c.keys[string(subs[i].B(0))] = subs[i].Str(1)
 		case "rm":
 			delete(c.keys, string(subs[i].B(0)))
 		}
@@ -196,6 +211,9 @@ func (g *historyGen) opSet(allowFault bool) simrt.Op {
 	subs := g.batch(parent)
 	h := g.nextHeight(parent)
 	mode := int64(g.r.Intn(2))
+	if g.noMemSet {
+		mode = 0
+	}
 	fault := int64(0)
 	if allowFault && g.r.Chance(1, 25) {
 		// fail the first disk write of the op (the commit batch, or with prune
@@ -355,16 +373,32 @@ func (c01) Generate(prop string, r *simrt.RNG, tier string, run int) *simrt.Scen
 	poolSize := []int{6, 12, 40, 150, 600}[r.Intn(5)]
 	g := newHistoryGen(r, poolSize, r.Chance(2, 3))
 	g.big = r.Chance(1, 6)
+	if tier == "thorough" {
+		g.big = r.Chance(1, 3)
+	}
 	nops := r.Range(6, 60)
-	if g.big {
+	if g.big && tier != "thorough" {
 		nops = r.Range(6, 25)
 	}
 	sc.Knobs["pool"] = int64(poolSize)
+	// strict / open: open runs (30 %) generate everything, including the shape of the
+	// recorded known defect (mem-tree configuration + a MemSet); strict runs never
+	// generate it, so every oracle stays active for the whole run and anything they
+	// report is new.
+	if r.Chance(3, 10) {
+		sc.Knobs["open"] = 1
+	} else if sc.Knobs["cfg"]&BitMemTree != 0 {
+		g.noMemSet = true
+	}
 	for i := 0; i < nops; i++ {
 		canWrite := len(g.states) < g.maxRoots+2
 		w := []int{10, 3, 3, 4, 8, 10, 2, 2, 1}
 		if !canWrite {
 			w[0], w[1], w[3] = 0, 0, 0
+		}
+		if g.noMemSet {
+			w[0] += w[1]
+			w[1], w[2] = 0, 0
 		}
 		switch r.Weighted(w...) {
 		case 0:
@@ -428,6 +462,11 @@ type c01World struct {
 	// rootEpoch: number of restarts the node had seen when the root was first committed
 	rootEpoch map[string]int
 	checks    bool // run the C01 oracles after each op
+	// pendSeen: number of MemSets in the current process that were not (yet) committed
+	// when they were computed and stayed pending for at least one other op
+	pendSeen int
+	// pendEarlier: the same, in earlier processes of this node (before the last restart)
+	pendEarlier int
 }
 
 func newWorld(ctx *simrt.Ctx, cfg Config, tag string) *c01World {
@@ -491,6 +530,8 @@ func (w *c01World) commitState(root []byte, st *State, how string) *simrt.Violat
 
 func (w *c01World) afterRestart(tag string) *simrt.Violation {
 	w.pend = nil
+	w.pendEarlier += w.pendSeen
+	w.pendSeen = 0
 	if w.vm.N() > 2 {
 		w.ctx.Probe(tag + "_then_old_root_read")
 	}
@@ -526,6 +567,17 @@ func (w *c01World) execWrite(op *simrt.Op) *simrt.Violation {
 			var r1 []byte
 			r1, err, pnc = n.MemSet(parent, kvs, h)
 			if pnc == nil && err == nil {
+				// the store keeps pending updates in one slot per root: this MemSet
+				// replaces an older pending update with the same root, and the
+				// Commit below consumes the slot
+				for i := range w.pend {
+					if bytes.Equal(w.pend[i].root, r1) {
+						w.pend = append(w.pend[:i], w.pend[i+1:]...)
+						ctx.Probe("pending_slot_shared_by_equal_roots")
+						break
+					}
+				}
+				w.pendSeen++ // uncommitted until the Commit below returns
 				root, err, pnc = n.Commit(r1)
 				if pnc == nil && err == nil && !bytes.Equal(root, r1) {
 					if disarm != nil {
@@ -572,6 +624,7 @@ func (w *c01World) execWrite(op *simrt.Op) *simrt.Violation {
 			}
 		}
 		w.pend = append(w.pend, pendingUpd{root: r1, st: child})
+		w.pendSeen++
 		ctx.Logf("pend root=%x", r1)
 
 	case "resolve":
@@ -794,11 +847,45 @@ func (c01) Execute(t *testing.T, ctx *simrt.Ctx) *simrt.Violation {
 			v = w.execTree(op)
 		}
 		if v != nil {
-			return v
+			return w.diagnose(v)
 		}
 	}
 	ctx.CurOp = len(sc.Ops)
-	return CheckAllRoots(ctx, w.n, w.vm, "final")
+	return w.diagnose(CheckAllRoots(ctx, w.n, w.vm, "final"))
+}
+
+// diagnose refines the signature of a failed read (or a write that panicked): which storage configuration,
+// whether an uncommitted MemSet had been computed in this process, and whether
+// a process restart makes every committed root readable again (damage in process
+// memory) or not (damage on disk). The verdict itself is not changed.
+func (w *c01World) diagnose(v *simrt.Violation) *simrt.Violation {
+	switch {
+	case v == nil:
+		return nil
+	case v.Class == "read-panic" || v.Class == "write-panic" || v.Class == "get-mismatch" || v.Class == "iter-mismatch" || v.Class == "size-mismatch":
+	default:
+		return v
+	}
+	pend := "no-uncommitted-memset"
+	if w.pendSeen > 0 {
+		pend = "uncommitted-memset-in-this-process"
+	} else if w.pendEarlier > 0 {
+		pend = "uncommitted-memset-before-restart"
+	}
+	heals := "persists-after-restart"
+	op := w.ctx.CurOp
+	var again *simrt.Violation
+	p := Guard(func() {
+		w.n.Crash()
+		again = CheckAllRoots(w.ctx, w.n, w.vm, "diagnose")
+	})
+	w.ctx.CurOp = op
+	if p == nil && again == nil {
+		heals = "heals-on-restart"
+	}
+	v.Sig = v.Sig + "|" + w.n.Cfg.String() + "|" + pend + "|" + heals
+	v.Detail += " [diagnosis: config " + w.n.Cfg.String() + "; " + pend + "; " + heals + "]"
+	return v
 }
 
 func (w *c01World) readTag(root []byte) string {
